@@ -217,19 +217,24 @@ class Transceiver:
 		return True
 
 	def get_rx_freq(self, fn):
-		if self.fh is None:
+		# NOTE: POWEROFF (socket thread) may reset self.fh at any time
+		# while the clock thread is here, so read it only once
+		fh = self.fh
+		if fh is None:
 			return self._rx_freq
 
 		# Frequency hopping in use, resolve by TDMA fn
-		(rx_freq, _) = self.fh.resolve(fn)
+		(rx_freq, _) = fh.resolve(fn)
 		return rx_freq
 
 	def get_tx_freq(self, fn):
-		if self.fh is None:
+		# NOTE: see get_rx_freq()
+		fh = self.fh
+		if fh is None:
 			return self._tx_freq
 
 		# Frequency hopping in use, resolve by TDMA fn
-		(_, tx_freq) = self.fh.resolve(fn)
+		(_, tx_freq) = fh.resolve(fn)
 		return tx_freq
 
 	def enable_fh(self, *args):
